@@ -61,3 +61,8 @@ prop("C03",
      level_text="The real pareto_updating / epsiloncovering / useful_updating of all seven algorithms are proved to perform exactly the specified promotion (S' and P' as set equalities, P monotone, S and P disjoint, VOGP_AD's depth gate and latch), U exactly the members of P that can still cover a candidate; Auer's two-stage hold-back with each design's own width under the alignment precondition.",
      mode=_SET, trusted_base=_SET_TB,
      not_decided=["geometric meaning of the predicates (C10)", "Auer with m > 3 objectives"])
+
+prop("C06",
+     level_text="run_one_step of the elimination algorithms is executed symbolically with the phases called by contract (the transitions proved for their real bodies); per step: idempotence after completion, S shrinks, P grows, S/P disjoint, U inside P, round+1, completion flag, phase order, samples only while candidates remain; evaluating() accounting and the discrete optimisers' exception-freedom are separate obligations.",
+     mode=_SET, trusted_base=_SET_TB,
+     not_decided=["exception-freedom inside cvxpy / gpytorch / botorch calls", "termination"])
